@@ -1,12 +1,16 @@
 package g_hstream
 
 import (
+	"fmt"
 	"net/http"
+	"net/http/httptest"
 	"os"
+	"sync"
 	"testing"
 	"time"
 
 	"github.com/Query-farm/vgi-rpc-go/vgirpc"
+	"github.com/apache/arrow-go/v18/arrow"
 
 	"verifharness/lib"
 )
@@ -24,6 +28,61 @@ type srvOpts struct {
 	Rehydrate  vgirpc.RehydrateFunc
 	Hook       vgirpc.DispatchHook
 	MaxResp    int64
+	External   bool // server resolves vgi_rpc.location pointers (from theOrigin)
+}
+
+// theOrigin serves the objects "uploaded" by a case: path -> IPC bytes.
+type originT struct {
+	srv   *httptest.Server
+	mu    sync.Mutex
+	blobs map[string][]byte
+	seq   int
+}
+
+var (
+	originOnce sync.Once
+	origin     *originT
+)
+
+func theOrigin() *originT {
+	originOnce.Do(func() {
+		o := &originT{blobs: map[string][]byte{}}
+		o.srv = httptest.NewServer(http.HandlerFunc(func(w http.ResponseWriter, r *http.Request) {
+			o.mu.Lock()
+			b, ok := o.blobs[r.URL.Path]
+			o.mu.Unlock()
+			if !ok {
+				http.NotFound(w, r)
+				return
+			}
+			w.Header().Set("Content-Type", lib.ArrowCT)
+			w.Write(b)
+		}))
+		origin = o
+	})
+	return origin
+}
+
+// put stores body and returns its URL.
+func (o *originT) put(body []byte) string {
+	o.mu.Lock()
+	defer o.mu.Unlock()
+	o.seq++
+	path := fmt.Sprintf("/o/%d", o.seq)
+	o.blobs[path] = body
+	return o.srv.URL + path
+}
+
+func (o *originT) clear() {
+	o.mu.Lock()
+	o.blobs = map[string][]byte{}
+	o.mu.Unlock()
+}
+
+type nullStorage struct{}
+
+func (nullStorage) Upload([]byte, *arrow.Schema, string) (string, error) {
+	return "", fmt.Errorf("harness: nothing is uploaded in this check")
 }
 
 func newHTTP(o srvOpts) *vgirpc.HttpServer {
@@ -35,6 +94,14 @@ func newHTTP(o srvOpts) *vgirpc.HttpServer {
 		srv.SetDispatchHook(o.Hook)
 	}
 	lib.RegisterScripted(srv)
+	if o.External {
+		ec := vgirpc.DefaultExternalLocationConfig(nullStorage{})
+		ec.ExternalizeThresholdBytes = 1 << 30
+		ec.URLValidator = func(string) error { return nil }
+		ec.MaxRetries = 1
+		ec.RetryDelay = time.Millisecond
+		srv.SetExternalLocation(ec)
+	}
 	key := o.Key
 	if key == nil {
 		key = tokenKey
